@@ -121,7 +121,7 @@ class RefFunc:
 
 class RAdapter(Canon):
     buffering = False
-    TIMES = ("init", "last", "prev")
+    TIMES = ("init", "last", "prev", "first_t")
     SERIES = ("buf",)
     TLISTS = ("pulls",)
 
@@ -333,8 +333,14 @@ class RIntegrate(RBuffer):
 
     def on_notify(self, t):
         super().on_notify(t)
+        self.npub = min(getattr(self, "npub", 0) + 1, 2)
         if self.prev is None:
             self.prev = t
+            self.first_t = t
+
+    def initial_case(self, t):
+        """only one publication so far, or a request for the very first publication time: the published value itself"""
+        return self.npub == 1 or t <= self.first_t
 
     def combos(self):
         """all single-valued versions of the buffer (ties upstream give sets)"""
@@ -352,8 +358,8 @@ class RAvg(RIntegrate):
     def get(self, t):
         self.check(t)
         p0, self.prev = self.prev, t
-        if len(self.buf) == 1 or t <= self.buf[0][0]:
-            return self.buf[0][1]
+        if self.initial_case(t):
+            return self.bracket(t)[0][1]
         if p0 >= t:
             return ANY  # statement is about p0 < p1 only
         cs = self.combos()
@@ -372,10 +378,11 @@ class RSum(RIntegrate):
     def get(self, t):
         self.check(t)
         p0, self.prev = self.prev, t
-        if len(self.buf) == 1 or t <= self.buf[0][0]:
+        if self.initial_case(t):
+            v0 = self.bracket(t)[0][1]
             if self.per_time:
-                return vmap(lambda v: v * self.ii * self.k, self.buf[0][1])
-            return self.buf[0][1]
+                return vmap(lambda v: v * self.ii * self.k, v0)
+            return v0
         if p0 >= t:
             return ANY
         cs = self.combos()
